@@ -315,6 +315,21 @@ class Builder:
             if scope.loops > 0 and self.chance(50):
                 cond = self.pick(["forloop.first", "forloop.last"])  # differs between renders of the same tag
             wrapper = {"t": "if", "n": cond, "a": None, "b": []}
+        # a second binding between the tag and the fill (inside or outside the first wrapper); with pooled names the two
+        # often bind the same name, and then the innermost one has to win
+        extra = None
+        if self.chance(22 if self.cfg["naming"] == "pool" else 10):
+            v2 = self.name("b")
+            first_var = None if wrapper is None else wrapper.get("n") if wrapper["t"] == "with" else wrapper.get("v") if wrapper["t"] == "for" else None
+            if first_var and wrap in ("with", "forname") and self.chance(50):
+                v2 = first_var  # deliberately the same name twice
+            if self.chance(50):
+                extra = {"t": "with", "n": v2, "e": self.expr(scope), "c": None}
+                inner_scope = inner_scope.extend([v2])
+            else:
+                extra = {"t": "for", "v": v2, "l": {"lit": self.pick(["a", "b", "q"])}, "c": None}
+                inner_scope = inner_scope.extend([v2], loop=True)
+            extra["_inside"] = self.chance(50)
         f = {"t": "fill", "name": name_expr, "c": []}
         body_scope = inner_scope
         if slotinfo and slotinfo["keys"] and self.chance(60) or self.chance(8):
@@ -322,18 +337,28 @@ class Builder:
             keys = (slotinfo["keys"] if slotinfo else []) or DATA_KEYS[:1]
             body_scope = body_scope.extend(["%s.%s" % (f["data"], k) for k in keys])
         f["c"] = self.nodes(body_scope, depth + 1, comp_index, 0, "fillbody")
+        if extra is not None and self.chance(70):
+            f["c"].insert(self.integer(0, len(f["c"])), self.varnode(v2))  # read the doubly bound name
         if self.chance(25):
             # the slot-default alias is only ever printed ({{ alias }}), never iterated / passed on
             dn = self.fresh("f")
             f["dflt"] = dn
             pos = self.integer(0, len(f["c"]))
             f["c"].insert(pos, self.varnode(dn))
+        inside = extra.pop("_inside") if extra is not None else False
+        inner = f
+        if extra is not None and (inside or wrapper is None):
+            extra["c"] = [f]
+            inner = extra
         if wrapper is None:
-            return f
+            return inner
         if wrapper["t"] == "if":
-            wrapper["a"] = [f]
+            wrapper["a"] = [inner]
         else:
-            wrapper["c"] = [f]
+            wrapper["c"] = [inner]
+        if extra is not None and not inside:
+            extra["c"] = [wrapper]
+            return extra
         return wrapper
 
     # -- components & page -----------------------------------------------------------
